@@ -548,6 +548,18 @@ def _run_block(ctx, case, mats, w, sig, extra):
             rho = app['density']
             wts_before = wts.copy()
             what = '%s weights=%r density=%r' % (label, app['weights'], rho)
+            # a request the calculator may refuse first (weights as a plain list, a weight vector of the wrong length,
+            # a keyword it does not know), caught by the caller: the judged call that follows is a new request
+            if j == 1:
+                for bad in (lambda: calc(wts[:-1] if len(wts) > 1 else np.array([1.0, 2.0]), density=rho),
+                            lambda: calc(wts, density=rho, volume_fraction=0.5),
+                            # (last: the very weights of the judged call, in a container the calculator may refuse)
+                            lambda: calc([float(x) for x in app['weights']], density=rho)):
+                    try:
+                        bad()
+                        ctx.count('refused_call.answered')
+                    except Exception:
+                        ctx.count('refused_call.refused')
             # composite route
             try:
                 got = calc(wts, rho) if app['density_positional'] else calc(wts, density=rho)
